@@ -288,6 +288,9 @@ pub struct Knobs {
 	/// in which the challenge is already valid and the authorization not yet)
 	#[serde(default, skip_serializing_if = "Vec::is_empty")]
 	pub chall_status: Vec<String>,
+	/// served certificate chains use CRLF line endings (PEM allows it; OpenSSL reads it)
+	#[serde(default, skip_serializing_if = "is_false")]
+	pub pem_crlf: bool,
 	/// line ending of served PEM ("\n")
 	#[serde(default, skip_serializing_if = "is_false")]
 	pub meta: bool,
